@@ -2,11 +2,11 @@ SPECIFICATION McSpec
 CONSTANTS
   H = {1, 2, 3}
   D0 = {}
-  Mode = "wire"
+  Mode = "compound"
   KindsUnderTest = {"SR", "RR", "SDES", "BYE", "APP", "NACK", "RRR", "TWCC", "CCFB", "PLI", "SLI", "FIR", "REMB", "XR", "RAW"}
   FaultDepth = 1
   MaxFrames = 2
   MaxCompound = 3
   AllPTs = FALSE
-INVARIANTS TypeOK RoundTrip RoundTripList Framing DispatchBack UniqueKind NoTrunc Stable DecodedWF Remarshal ListRemarshal AllAccepted DestStable
+INVARIANTS TypeOK AutomatonIsGrammar CompoundMarshal CompoundBack CnameDefined
 CHECK_DEADLOCK FALSE
